@@ -51,6 +51,10 @@ func (t *Track) Add(deltaticks uint32, msgs ...[]byte) {
 		ev := Event{Delta: deltaticks, Message: msg}
 		*t = append(*t, ev)
 		deltaticks = 0
+		// an end of track message among the messages closes the track: what follows it is ignored
+		if t.IsClosed() {
+			return
+		}
 	}
 }
 
